@@ -98,6 +98,24 @@ def _chain_transformers(fi: FuncInfo, seed_pred) -> List[Tuple[str, ast.Call, Op
     return out
 
 
+def _rewriter_signature(repo, fi: FuncInfo, depth: int = 0) -> str:
+    """the text operations a repository function applies (regex calls and str methods with their
+    constant arguments, following repository callees): identifies *which* rewriting a finding is about"""
+    ops = []
+    for c in sorted((c for c in walk_no_nested(fi.node) if isinstance(c, ast.Call)), key=lambda c: (c.lineno, c.col_offset)):
+        d = dotted(c.func)
+        if d.startswith("re.") or (isinstance(c.func, ast.Attribute) and c.func.attr in ("replace", "encode", "decode", "translate", "strip", "lstrip", "rstrip", "format", "join", "split", "splitlines", "expandtabs")):
+            consts = [repr(a.value) for a in c.args if isinstance(a, ast.Constant)]
+            ops.append((d.split(".")[-1] if not d.startswith("re.") else d) + "(" + ",".join(consts) + ")")
+        elif isinstance(c.func, ast.Name):
+            k, v = repo.resolve(fi.module, c.func.id)
+            if k == "func" and depth < 3:
+                ops.append(c.func.id + "{" + _rewriter_signature(repo, v, depth + 1) + "}")
+            elif c.func.id in ("indent", "dedent"):
+                ops.append(c.func.id)
+    return ";".join(ops)
+
+
 def _check_remove_blank_lines(ctx):
     fi = ctx.repo.func("utils:remove_blank_line_between_class_and_content")
     p = fi.node.args.args[0].arg
@@ -144,7 +162,10 @@ def c02_r1(ctx):
                 ctx.ok(f"{fi.key}: {name} (tabled: {TABLED_TEXT_OPS[(ms, name)][:60]})", fi.loc(call))
                 continue
             g = f" when `{norm(guard.test)}`" if guard is not None else ""
-            ctx.fail(key(fi, f"{name}(code)"), f"text-level rewriter `{name}` is applied to the generated module source{g}: "
+            sig = ""
+            if kind == "func":
+                sig = " ops=" + _rewriter_signature(repo, tgt)
+            ctx.fail(key(fi, f"{name}(code){sig}"), f"text-level rewriter `{name}` is applied to the generated module source{g}: "
                      "string literals of the operation (quotes, backslash escapes, '=' ...) can be altered or break formatting", fi.loc(call))
     # call sites that enable the optional rewriter
     a2s = repo.func("utils:ast_to_str")
@@ -507,6 +528,23 @@ def c04_r6(ctx):
     b = norm(kw(gm[0], "body")) if gm and kw(gm[0], "body") is not None else ""
     good = "imports" in b and "sorted_class_defs" in b and "self._get_model_rebuild_calls(" in b and b.index("imports") < b.index("sorted_class_defs") < b.index("self._get_model_rebuild_calls(")
     ctx.check(good, key(fr, "model_rebuild"), "fragments module body is not imports < classes < model_rebuild calls", fr.loc(), okmsg="fragments: imports < classes < model_rebuild calls")
+    apps = [c for c in walk_no_nested(fr.node) if isinstance(c, ast.Call) and norm(c.func) == "top_level_class_names.append"]
+    good = len(apps) == 1
+    if good:
+        env_ = {st.targets[0].id: st.value for st in ast.walk(fr.node) if isinstance(st, ast.Assign) and len(st.targets) == 1 and isinstance(st.targets[0], ast.Name)}
+        a0 = apps[0].args[0]
+        base = a0.value.value if isinstance(a0, ast.Attribute) and a0.attr == "name" and isinstance(a0.value, ast.Subscript) else None
+        base = env_.get(base.id, base) if isinstance(base, ast.Name) else base
+        good = base is not None and norm(base) == "generator.get_classes()"
+        par = None
+        for n in walk_no_nested(fr.node):
+            if isinstance(n, ast.If) and any(apps[0] is x for s_ in n.body for x in ast.walk(s_)):
+                par = n
+        tst = par.test if par is not None else None
+        tst = env_.get(tst.id, tst) if isinstance(tst, ast.Name) else tst
+        good = good and tst is not None and norm(tst) == "generator.get_classes()"
+    ctx.check(good, key(fr, "top-level class names"), "the names handed to _get_model_rebuild_calls are not the names of the classes actually generated for each fragment (an unpacked fragment has no class: ValueError in class_names.index)", fr.loc(),
+              okmsg="model_rebuild names = first class of each fragment that produced classes")
     mh = repo.cls("codegen:ClassDefNamesVisitor")
     vn = mh.methods.get("visit_Name")
     good = vn is not None and any(isinstance(n, ast.Compare) and norm(n) == "'\"' in node.id" for n in ast.walk(vn.node))
@@ -788,6 +826,26 @@ def c09_r2(ctx):
     for expr, cls in want.items():
         ctx.check(expr in consumed, f"client_generators.package::PackageGenerator::consumes {cls}.get_used_enums", f"used enums of {cls} ({expr}) are never added to the package's used-enum list", pg.loc(),
                   okmsg=f"{cls}.get_used_enums() consumed")
+    # ... on every path of the consuming method that writes the consumer's module, and only after the producer is complete
+    for fi in pg.methods.values():
+        g = cfg_of(fi)
+        for n in g.stmts():
+            if n.kind != "stmt" or n.ast is None:
+                continue
+            for c in ast.walk(n.ast):
+                if isinstance(c, ast.Call) and norm(c.func) == "self._used_enums.extend" and c.args and isinstance(c.args[0], ast.Call) and isinstance(c.args[0].func, ast.Attribute) and c.args[0].func.attr == "get_used_enums":
+                    src = norm(c.args[0].func.value)
+                    # (i) not skipped on a path that still writes a file
+                    writes = [w for w in g.stmts() if w.kind == "stmt" and w.ast is not None and calls_named(w.ast, "write_text")]
+                    skipped = [w for w in writes if g.exit.id in g.reach([w], avoid={n.id}) and n.id not in g.reach([g.entry], avoid={w.id}) or (w.id in g.reach([g.entry], avoid={n.id}) and g.exit.id in g.reach([w], avoid={n.id}))]
+                    ctx.check(not skipped, key(fi, f"consume {src} on every path"), f"a path through {fi.qualname} writes its module but skips `{norm(c)[:90]}`: enums used there are pruned under include_all_enums=false", fi.loc(c),
+                              okmsg=f"{fi.qualname}: {src}.get_used_enums() consumed on every writing path")
+                    # (ii) the arguments generator is complete only after the method of the operation has been added
+                    if src.endswith("arguments_generator"):
+                        adders = [w for w in g.stmts() if w.kind == "stmt" and w.ast is not None and calls_named(w.ast, "self.client_generator.add_method")]
+                        early = [w for w in adders if n.id not in g.reach_after(w) or w.id in g.reach_after(n)]
+                        ctx.check(not early, key(fi, "arguments enums after add_method"), "variable-type enums are read from the arguments generator before the operation's method was added to it (the last operation's enums are never recorded)", fi.loc(c),
+                                  okmsg=f"{fi.qualname}: argument enums read after all add_method calls of this method")
     # every class under client_generators that branches on GraphQLEnumType while emitting code must expose get_used_enums (or feed one that does)
     feeders = {
         "client_generators.result_fields": "records into FieldContext.enums, collected by ResultTypesGenerator (C04.R4)",
@@ -852,15 +910,47 @@ def c09_r4(ctx):
             and norm(rv.elt) == norm(rv.generators[0].target) and norm(rv.generators[0].iter) == "self._class_defs" \
             and [norm(i) for i in rv.generators[0].ifs] == [f"{norm(rv.generators[0].target)}.name in types_names"]
     ctx.check(good, key(fc, "closure"), "filtered classes must be exactly those in the union of the dependency closures of all requested types", fc.loc(), okmsg="filter = union of closures, classes unchanged")
-    dfs = repo.func(IT + "_get_dependencies_of_type.dfs")
-    p = dfs.node.args.args[0].arg
-    eff = lambda c: (isinstance(c.func, ast.Attribute) and c.func.attr in ("add", "append")) or is_name(c.func, "dfs")
-    o = [x for x in Interp(dfs, lambda e: (True if norm(e) == f"{p} not in visited" else False if norm(e) == f"{p} in visited" else None), is_effect=eff).run() if any("loop body once" in t for t in x.trace)]
-    good = len(o) >= 1
-    for x in o:
-        effs = [norm(e) for e in x.effects]
-        good = good and effs == [f"visited.add({p})", f"result.append({p})", f"dfs(<elem>(self._dependencies[{p}]))"]
-    ctx.check(good, key(dfs, "dfs"), "the DFS must mark, record and then recurse into every dependency", dfs.loc(), okmsg="dfs: mark, record, recurse over all dependencies")
+    outer = repo.func(IT + "_get_dependencies_of_type")
+    scope = [outer] + [f for q, f in outer.module.functions.items() if q.startswith(outer.qualname + ".")]
+    nloops = []
+    for f2 in scope:
+        for lp in walk_no_nested(f2.node):
+            if isinstance(lp, ast.For) and norm(lp.iter).startswith("self._dependencies["):
+                nloops.append((f2, lp))
+    if len(nloops) != 1:
+        raise AnalysisError(f"_get_dependencies_of_type: {len(nloops)} loops over self._dependencies[...]")
+    f2, lp = nloops[0]
+    nb = norm(lp.target)
+    probs = []
+    if any(isinstance(x, (ast.Break, ast.Return)) for x in ast.walk(lp)):
+        probs.append("the loop over a type's dependencies can stop early (break/return): later dependencies are never visited")
+    handled = False
+    for x in ast.walk(lp):
+        if isinstance(x, ast.Call):
+            if isinstance(x.func, ast.Name) and any(x.func.id == g2.qualname.rsplit(".", 1)[-1] for g2 in scope) and x.args and norm(x.args[0]) == nb:
+                handled = True  # recursion into the neighbour
+            if isinstance(x.func, ast.Attribute) and x.func.attr in ("append", "extend", "add", "appendleft") and x.args and nb in norm(x.args[0]) and norm(x.func.value) not in ("result", "visited"):
+                handled = True  # pushed on a worklist
+    if not handled:
+        probs.append("a dependency is neither recursed into nor pushed on a worklist")
+    for st in lp.body:
+        if isinstance(st, ast.If) and any(isinstance(x, ast.Continue) for x in ast.walk(st)):
+            t = norm(st.test)
+            if not (nb in t and " in " in t):
+                probs.append(f"dependencies are skipped under `{t}`")
+    ctx.check(not probs, key(f2, "closure"), "; ".join(probs), f2.loc(lp), okmsg="every dependency of every reached type is visited (no early exit)")
+    if f2 is not outer:
+        dfs = f2
+        p = dfs.node.args.args[0].arg
+        eff = lambda c: (isinstance(c.func, ast.Attribute) and c.func.attr in ("add", "append")) or is_name(c.func, dfs.node.name)
+        o = [x for x in Interp(dfs, lambda e: (True if norm(e) == f"{p} not in visited" else False if norm(e) == f"{p} in visited" else None), is_effect=eff).run() if any("loop body once" in t for t in x.trace)]
+        good = len(o) >= 1
+        for x in o:
+            effs = [norm(e) for e in x.effects]
+            good = good and len(effs) == 3 and effs[0].endswith(f".add({p})") and effs[1].endswith(f".append({p})") and effs[2] == f"{dfs.node.name}(<elem>(self._dependencies[{p}]))"
+        ctx.check(good, key(dfs, "dfs"), "the DFS must mark, record and then recurse into every dependency", dfs.loc(), okmsg="dfs: mark, record, recurse over all dependencies")
+    else:
+        ctx.ok("worklist form of the dependency closure", outer.loc())
     pd = repo.func(IT + "_parse_input_definition")
     loops = [n for n in pd.node.body if isinstance(n, ast.For)]
     direct = [st for st in loops[0].body if isinstance(st, ast.Expr) and isinstance(st.value, ast.Call) and norm(st.value.func) == "self._save_dependencies"] if loops else []
@@ -1172,6 +1262,26 @@ def c17_r6(ctx):
                 if h.type is not None and "ValueError" in norm(h.type) and any(isinstance(x, ast.Raise) and "InvalidConfiguration" in norm(x) for x in ast.walk(h)):
                     conv = True
     ctx.check(conv, key(cs, "comment mode"), "an unknown include_comments value is not reported as InvalidConfiguration", cs.loc(), okmsg="unknown comment mode -> InvalidConfiguration")
+    for m_ in ("settings", "config"):
+        for q, f3 in sorted(repo.mod(m_).functions.items()):
+            params = {a.arg for a in f3.node.args.args if a.arg not in ("self", "cls")}
+            muts = []
+            for n in walk_no_nested(f3.node):
+                root = None
+                if isinstance(n, ast.Subscript) and isinstance(n.ctx, (ast.Store, ast.Del)):
+                    root = n.value
+                elif isinstance(n, ast.Call) and isinstance(n.func, ast.Attribute) and n.func.attr in ("update", "pop", "setdefault", "clear", "popitem", "append", "extend", "insert", "remove"):
+                    root = n.func.value
+                while isinstance(root, (ast.Subscript, ast.Attribute)):
+                    root = root.value
+                if isinstance(root, ast.Name) and root.id in params:
+                    # rebinding the parameter to a copy first makes it local
+                    rebound = any(isinstance(st, ast.Assign) and any(is_name(t, root.id) for t in st.targets) and st.lineno < n.lineno for st in walk_no_nested(f3.node))
+                    if not rebound:
+                        muts.append(norm(n)[:60])
+            if muts:
+                ctx.fail(key(f3, "mutates its argument"), f"{q} modifies the mapping it is given ({muts}): values from the caller's configuration dict are overwritten in place", f3.loc())
+    ctx.ok("settings / config functions never modify a mapping they receive")
     gs = repo.func("config:get_section")
     rs = [r for r in walk_no_nested(gs.node) if isinstance(r, ast.Raise)]
     ctx.check(len(rs) == 1 and "MissingConfiguration" in norm(rs[0]), key(gs, "no section"), "a missing [tool.ariadne-codegen] section is not reported as MissingConfiguration", gs.loc(), okmsg="missing section -> MissingConfiguration")
